@@ -1,8 +1,8 @@
 \* the poller driving the storage, split at its waits, against an arbitrary data source and a
-\* moving head: head 0..2, <= 2 slots, any number of ticks
+\* moving head: head 0..3, <= 3 slots, any number of ticks
 CONSTANTS
-  MaxHead = 2
-  MaxSlots = 2
+  MaxHead = 3
+  MaxSlots = 3
   MaxTx = 2
   MaxUpd <- Unbounded
   MaxViews = 0
